@@ -48,6 +48,10 @@ func loadKeys2048() (map[string]*paillier.SecretKey, map[string][2]*big.Int, err
 	primes := map[string][2]*big.Int{}
 	for _, l := range strings.Split(string(b), "\n") {
 		f := strings.Fields(l)
+		if len(f) == 4 && f[1] == "3072" { // primes only (ring-Pedersen modulus for affg / encelg)
+			primes[f[0]+"3072"] = [2]*big.Int{vh.UnZHex(f[2]), vh.UnZHex(f[3])}
+			continue
+		}
 		if len(f) != 4 || f[1] != "2048" {
 			continue
 		}
